@@ -1,4 +1,148 @@
-/- Driver.C19 — stream `C19` (stub: replaced when the property's model is built). -/
+/-
+  Driver.C19 — stream `C19`: one cell of the typed-property table.
+
+    payload := ( mode tag prop attr iattr ( anc* ) pre via init assign )
+      mode   := cell                       -- the model of the code: dispatch over the generated tables (AHP.Gen)
+              | spec                       -- the documented rule (AHP.Conv.Spec) evaluated on the same cell:
+                                           --   result := ( setout value "htmlName" )  |  bare
+    payload := ( names )                   -- the documented name tables: ( ("tag" "prop"*)* ) ( "common"* )
+      tag prop attr iattr anc := string atoms
+                                           -- tag: as passed to the constructor (any case); attr: the HTML attribute observed;
+                                           -- iattr: its spelling when the cell initialises it (any case)
+      pre    := true | false               -- an unrelated attribute data-k="v" precedes
+      via    := ctor | html | setattr      -- constructor attribute list (= what the parser calls) | em.setAttribute(iattr, text)
+      init   := absent | (bare) | (text T)
+      assign := no | (s T) | (i n) | (b true|false) | (n)               -- `em.prop = value` after the initialisation
+      T      := "text" | (rep T n) | (cat T*)
+
+    result := ( setout value attrvalue hasattr ( ("name" value?)* ) )
+      setout := skip | ok | (raise E)
+      value  := none | (s "text") | (i n) | (b true|false) | (t "w"*) | (anc i) | (obj what) | (raise E)
+-/
+import AHP.Model.ConvSpec
 namespace Driver.C19
-def run (_payload : String) : String := "unimplemented"
+open AHP AHP.Sexp AHP.Conv
+
+def errName : PyErr → String
+  | .valueError => "ValueError"
+  | .typeError => "TypeError"
+  | .keyError => "KeyError"
+  | .indexSizeError => "IndexSizeErrorException"
+  | .other n => n
+
+def boolSym (b : Bool) : Sexp := sym (if b then "true" else "false")
+
+def renderV : PyV → Sexp
+  | .none => sym "none"
+  | .str s => .list [sym "s", strAtom s]
+  | .int n => .list [sym "i", sym (toString n)]
+  | .bool b => .list [sym "b", boolSym b]
+  | .tokens ws => .list (sym "t" :: ws.map strAtom)
+  | .ancestor i => .list [sym "anc", natAtom i]
+  | .opaque w => .list [sym "obj", sym w]
+
+def renderR : Except PyErr PyV → Sexp
+  | .ok v => renderV v
+  | .error e => .list [sym "raise", sym (errName e)]
+
+def toS? (x : Sexp) : Option String := (toStr? x).map String.ofList
+
+/-- text on the wire: a string atom, `(rep text n)` (n copies) or `(cat text*)` — long repetitive texts stay short. -/
+partial def toText? : Sexp → Option Str
+  | .list [.atom "rep", x, n] => do
+    let u ← toText? x
+    let k ← toNat? n
+    pure ((List.replicate k u).flatten)
+  | .list (.atom "cat" :: xs) => do
+    let parts ← xs.mapM toText?
+    pure parts.flatten
+  | x => toStr? x
+
+def parseV : Sexp → Option PyV
+  | .list [.atom "s", x] => (toText? x).map .str
+  | .list [.atom "i", .atom n] => n.toInt?.map .int
+  | .list [.atom "b", .atom "true"] => some (.bool true)
+  | .list [.atom "b", .atom "false"] => some (.bool false)
+  | .list [.atom "n"] => some .none
+  | _ => none
+
+def parseInit (attr : String) : Sexp → Option (List (String × Option Str))
+  | .atom "absent" => some []
+  | .list [.atom "bare"] => some [(attr, none)]
+  | .list [.atom "text", x] => (toText? x).map (fun s => [(attr, some s)])
+  | _ => none
+
+def observe (T : Tables) (e : Elem) (prop attr : String) (setout : Sexp) : Sexp :=
+  .list [setout,
+         renderR (getProp T pyIntOfStr e prop),
+         renderV (e.getAttribute T attr .none),
+         boolSym (e.hasAttribute attr),
+         .list (e.attributesList.map (fun (k, v) => .list [strAtom k.toList, optStr v]))]
+
+/-- Build the element the way the cell says; `none` when the initialisation itself raised. -/
+def initial (T : Tables) (tag : String) (anc : List String) (pre : Bool) (via : String)
+    (init : List (String × Option Str)) : Except PyErr Elem :=
+  let tag' := lowerS tag                         -- AdvancedTag.__init__: self.tagName = tagName.lower()
+  let preAttrs : List (String × Option Str) := if pre then [("data-k", some (str "v"))] else []
+  if via = "setattr" then
+    let e0 := Elem.ofAttrList T tag' anc preAttrs (Elem.new tag' anc)
+    match init with
+    | [(k, some s)] => e0.setAttribute T k (.str s)
+    | [(k, none)] => e0.setAttribute T k .none
+    | _ => .ok e0
+  else .ok (Elem.ofAttrList T tag' anc (preAttrs ++ init) (Elem.new tag' anc))
+
+def runCell (T : Tables) (tag prop attr : String) (anc : List String) (pre : Bool) (via : String)
+    (init : List (String × Option Str)) (assign : Option PyV) : Sexp :=
+  match initial T tag anc pre via init with
+  | .error err => .list [sym "init-raise", sym (errName err)]
+  | .ok e0 =>
+    match assign with
+    | none => observe T e0 prop attr (sym "skip")
+    | some v =>
+      match setProp T pyIntOfStr e0 prop v with
+      | .ok e1 => observe T e1 prop attr (sym "ok")
+      | .error err => observe T e0 prop attr (.list [sym "raise", sym (errName err)])
+
+/-- The documented rule on a cell (used by the harness to compare its Python restatement with `Spec`). -/
+def runSpec (tag prop : String) (anc : List String) (init : List (String × Option Str)) (assign : Option PyV) : Sexp :=
+  let r := Spec.srule tag prop
+  match init with
+  | [(_, none)] => sym "bare"
+  | _ =>
+    let st0 : Spec.St := match init with | [(_, some s)] => .text s | _ => .absent
+    let (setout, st) : Sexp × Spec.St := match assign with
+      | none => (sym "skip", st0)
+      | some v => match Spec.assign pyIntOfStr r v with
+        | .raise => (.list [sym "raise", sym "IndexSizeErrorException"], st0)
+        | .remove => (sym "ok", .absent)
+        | .store s => (sym "ok", .text s)
+    let cls := match st with | .text s => Spec.words s | .absent => []
+    .list [setout, renderV (Spec.expected pyIntOfStr r st anc cls), strAtom (Spec.htmlName prop).toList]
+
+def specNames : Sexp :=
+  .list [.list (Spec.tagProps.map (fun (t, ps) => .list (strAtom t.toList :: ps.map (fun p => strAtom p.toList)))),
+         .list (Spec.commonProps.map (fun p => strAtom p.toList))]
+
+def run (payload : String) : String :=
+  match Sexp.parse payload with
+  | some (.list [.atom "names"]) => specNames.render
+  | some (.list [.atom mode, tag, prop, attr, iattr, .list anc, .atom pre, .atom via, init, assign]) =>
+    match toS? tag, toS? prop, toS? attr, toS? iattr, anc.mapM toS? with
+    | some tag, some prop, some attr, some iattr, some anc =>
+      match parseInit iattr init with
+      | none => "bad-init"
+      | some init =>
+        let asg : Option (Option PyV) := match assign with
+          | .atom "no" => some none
+          | x => (parseV x).map some
+        match asg with
+        | none => "bad-assign"
+        | some asg =>
+          if mode = "cell" then (runCell genTables tag prop attr anc (pre = "true") via init asg).render
+          else if mode = "spec" then (runSpec (lowerS tag) prop anc init asg).render
+          else "bad-mode"
+    | _, _, _, _, _ => "bad-case"
+  | _ => "bad-case"
+
 end Driver.C19
